@@ -182,6 +182,11 @@ def check(cx):
                          'mask match, required password verified): %s' % model_str(m), loc=cx.loc(e.node))
 
     # ---------------------------------------------------------------- R3.8 the configured user is found under its own name
+    # the secret that is compared is the PASS parameter as sent (tokeniser and parser hand it over unaltered)
+    r39 = cx.rule('R3.9', 'the password checked is the password sent (imported)', floor=1, kind='dependency')
+    depends(cx, r39, 'C13', ('R13.13', 'R13.14'), 'the PASS parameter reaches the handler as sent', only=r'trims-end|line-altered|\|PASS\.')
+    depends(cx, r39, 'C20', ('R20.11',), 'the stored and the verified password are the PASS parameter itself')
+
     r38 = cx.rule('R3.8', 'configured-user lookup table', floor=1, kind='provenance')
     rule_config_index_tables(cx, r38, which=('user_config_idxs',))
 
